@@ -66,7 +66,7 @@ def gen_status_race(rng, seed):
 
 
 def gen(rng, tier):
-    n, nr = {"quick": (250, 250), "thorough": (8000, 8000), "search": (2000, 2000)}[tier]
+    n, nr = {"quick": (250, 250), "thorough": (8000, 8000), "search": (300, 300)}[tier]      # whole-system runs make large cases files: a search round must stay affordable
     cases = [gen_one(rng, rng.randrange(10**9)) for _ in range(n)] + [gen_status_race(rng, rng.randrange(10**9)) for _ in range(nr)]
     for k in range(0, 5):
         for flags in itertools.product([False, True], repeat=k):
